@@ -143,7 +143,13 @@ def apply_contract(interp, c, func, args, kwargs):
         if isinstance(clause, tuple):       # (clause, 'effect') : executed for its effect on ghost state
             _call_pred(interp, clause[0], env2)
             continue
-        st.assume(interp.truth(_call_pred(interp, clause, env2)))
+        v = interp.truth(_call_pred(interp, clause, env2))
+        if v is False and not st.scopes:
+            # nothing symbolic about it: almost certainly the identity (`is`) of a havocked object, which
+            # would silently end the path -- say so instead
+            raise Unsupported('ensures[%s] of %s is definitely false at a call site in %s (identity of a '
+                              'havocked object? use an (effect) clause or inline=True)' % (name, c.qname, caller))
+        st.assume(v)
     return result
 
 
@@ -316,6 +322,7 @@ def _run_path(interp, reg, c, func, rep):
     pos = [args[n] for n in names[:code.co_argcount]]
     kw = {n: args[n] for n in names[code.co_argcount:] if n in args}
     outcome = None
+    ghost0 = dict(st.ghost)
     info = frontend.funcinfo_of(func)
     yseq = None
     if info.is_generator:
@@ -378,6 +385,20 @@ def _run_path(interp, reg, c, func, rep):
                                                                      + list(allowed or ()))),
                           isinstance(exc, tuple(allowed)) if allowed else False,
                           {'kind': 'raises-only', 'exception': repr(exc)})
+    # frame of the ghost (monitor) state: variables not declared in `modifies` are unchanged
+    if c.modifies is not None:
+        for key in sorted(k for k in set(ghost0) | set(st.ghost) if isinstance(k, str)):
+            if ('ghost:' + key) in c.modifies:
+                continue
+            v0, v1 = ghost0.get(key, _MISSING), st.ghost.get(key, _MISSING)
+            if v0 is v1:
+                continue
+            if isinstance(v0, (int, bool, str, SInt, SBool)) and isinstance(v1, (int, bool, str, SInt, SBool)) \
+                    or (hasattr(v0, 't') and hasattr(v1, 't')):
+                same = interp.eq(v0, v1)
+            else:
+                same = False
+            st.oblige('%s : frame[ghost %s unchanged]' % (fname, key), same, {'kind': 'frame'})
     # vacuity guard: the path must be satisfiable, otherwise its obligations say nothing
     if st.check() == z3.unsat:
         st.obligations[:] = [o for o in st.obligations if o[3].get('kind') in ('callee-pre', 'loop-entry')]
@@ -385,6 +406,9 @@ def _run_path(interp, reg, c, func, rep):
     if c.raises_only is not None and outcome[0] == 'return':
         st.oblige('%s : raises_only(%s)' % (fname, ', '.join(_exc_name(e) for e in list(c.raises) + list(c.may_raise)
                                                             + list(c.raises_only))), True, {'kind': 'raises-only'})
+
+
+_MISSING = object()
 
 
 def _shape_of_ty(ty):
